@@ -263,7 +263,7 @@ def is_subsequence(a, b):
 
 class Check(PropertyCheck):
     pid = "C01"
-    gen_files = ["GenAsh"]
+    gen_files = ["GenAsh", "GenAshRxFn", "GenAshTxFn"]
     model_imports = ["gen.GenAsh", "model.AshCodec", "model.AshRx", "model.AshHost", "model.AshHostBytes"]
     run_expr = "run_hostbytes_case"
     case_type = "(list bevent)"
